@@ -125,39 +125,40 @@ def eigh_jvp(ctx):
                                     for x in d)
     ctx.ob("GUARD-1", "linalg_utils._eigh_jvp: the guarded quantity is the matrix of eigenvalue differences",
            d is not None, show(core, maxdepth=3)[:100], fi)
-    # F = reciprocal(...) - eye : the matrix handed to the tangent helper (second positional argument)
-    helper_calls = [x for x in subterms(R) if x.op == "call" and (func_name(x) or "").endswith("_eigh_jvp_jitted_nob")]
-    h = p.func("linalg_utils._eigh_jvp_jitted_nob")
-    # which parameter of the tangent helper is F / the eigenvectors / the matrix tangent is read off the call: the
-    # argument built from the reciprocal, the one that is element 1 of the _eigh result, the remaining one
-    roles = {}
-    F = None
+    # ---- the tangent: (dw, dv) with dw = diag(M), dv = v (F * M), M = v^H dA v, F = reciprocal(guarded gaps) - eye.
+    # Its formula may be written in _eigh_jvp itself, in a private helper (evaluated in place) or in a helper that
+    # stays a call; in the last case the helper's result is brought into _eigh_jvp's terms through the call binding.
+    from ..symex import substitute
+    Rs = strip_wrappers(R)
+    po = strip_wrappers(Rs.args[0]) if Rs.op == "tuple" and len(Rs.args) == 2 else None
+    tang = strip_wrappers(Rs.args[1]) if Rs.op == "tuple" and len(Rs.args) == 2 else None
+    where_fi = fi
+    helper_calls = [x for x in subterms(R) if x.op == "call" and x.args[0].op == "fn" and
+                    x.args[0].args[0] in p.functions and not x.args[0].args[0].endswith("._eigh") and
+                    recs and any(y is recs[0] for a_ in x.args[1:] for y in subterms(a_.args[1] if a_.op == "kw" else a_))]
     if helper_calls:
-        from ..model import bind_call
-        _, hpos_, hkws_ = call_parts(helper_calls[0])
-        okb_, _, mp_ = bind_call(h, len(hpos_), list(hkws_), False)
-        if okb_:
-            actual = {n_: (hpos_[m_[1]] if m_[0] == "pos" else hkws_[m_[1]]) for n_, m_ in mp_.items()}
-            for n_, a_ in actual.items():
-                a0 = strip_wrappers(a_)
-                if recs and any(x is recs[0] for x in subterms(a0)):
-                    roles["F"] = n_
-                    F = a_
-                elif a0.op == "getitem" and is_const(a0.args[1], 1) and a0.args[0].op == "call" and \
-                        (func_name(a0.args[0]) or "").endswith("_eigh"):
-                    roles["v"] = n_
-            rest = [n_ for n_ in actual if n_ not in roles.values()]
-            if len(rest) == 1:
-                roles["at"] = rest[0]
-    okF = False
-    if F is not None:
-        m = m_binop(strip_wrappers(F), "-")
-        okF = m is not None and strip_wrappers(m[0]) is recs[0] and m_arrcall(strip_wrappers(m[1]), "eye") is not None
+        h = p.functions[helper_calls[0].args[0].args[0]]
+        where_fi = h
+        b_ = ev.call_binding(helper_calls[0], fr)
+        if b_ is not None:
+            ev2 = Evaluator(p)
+            fr2 = ev2.eval_function(h)
+            r2 = substitute(ev2.result(fr2), {sym(k_): v_ for k_, v_ in b_.items()})
+            tang = substitute(tang, {helper_calls[0]: r2}) if tang is not None else r2
+            tang = strip_wrappers(tang)
+            if tang.op == "tuple" and all(x.op == "getitem" and x.args[0] is r2 for x in tang.args):
+                tang = r2
+    if tang is not None and tang.op == "record" and len(tang.args) == 3:
+        tang = mk("tuple", tang.args[1], tang.args[2])         # (dw, dv) travelling as a two-field record
+    if tang is not None and tang.op == "tuple":
+        tang = mk("tuple", *[strip_wrappers(getitem(tang, const(i))) for i in range(len(tang.args))])
+    # F: the difference reciprocal(..) - eye that reaches the tangent
+    Fs = [x for x in (subterms(tang) if tang is not None else []) if x.op == "binop" and x.args[0] == "-" and recs
+          and strip_wrappers(x.args[1]) is recs[0]]
+    okF = bool(Fs) and all(m_arrcall(strip_wrappers(x.args[2]), "eye") is not None for x in Fs)
     ctx.ob("GUARD-1", "linalg_utils._eigh_jvp: the diagonal correction is applied after the reciprocal", okF,
            "F = reciprocal(guarded gaps) - eye", fi)
     # primal output and tangent structure: returns (_eigh(primals), (dw, dv))
-    Rs = strip_wrappers(R)
-    po = strip_wrappers(Rs.args[0]) if Rs.op == "tuple" and len(Rs.args) == 2 else None
     ok_p = po is not None and po.op == "call" and (func_name(po) or "").endswith("_eigh")
     if po is not None and not ok_p and po.op == "tuple" and len(po.args) == 2:
         # (w, v) re-packed from one _eigh call
@@ -165,16 +166,13 @@ def eigh_jvp(ctx):
         ok_p = e0.op == "getitem" and e1.op == "getitem" and is_const(e0.args[1], 0) and is_const(e1.args[1], 1) and \
             e0.args[0] is e1.args[0] and e0.args[0].op == "call" and (func_name(e0.args[0]) or "").endswith("_eigh")
     ctx.ob("GUARD-1", "linalg_utils._eigh_jvp: primal output is _eigh(primals)", ok_p, "", fi)
-    ev2 = Evaluator(p)
-    fr2 = ev2.eval_function(h)
-    r2 = ev2.result(fr2)
-    if set(roles) != {"F", "v", "at"}:
-        ctx.rep.note("linalg_utils._eigh_jvp: the (eigenvectors, F, tangent) arguments of the tangent helper were not "
-                     "identified at its call; the tangent-formula rule does not apply")
+    eigh_calls = [x for x in subterms(R) if x.op == "call" and (func_name(x) or "").endswith("._eigh")]
+    if tang is None or tang.op != "tuple" or len(tang.args) != 2 or not Fs or not eigh_calls:
+        ctx.rep.note("linalg_utils._eigh_jvp: the tangent is not a (dw, dv) pair built from reciprocal(gaps) - eye in a "
+                     "form this rule reads; the tangent-formula rule does not apply")
         return
-    hp = [sym(roles["v"]), sym(roles["F"]), sym(roles["at"])]
-    if r2.op == "record" and len(r2.args) == 3:
-        r2 = mk("tuple", r2.args[1], r2.args[2])         # (dw, dv) travelling as a two-field record
+    vterm = getitem(eigh_calls[0], const(1))
+    Fterm = Fs[0]
 
     def dot_parts(t):
         t = strip_wrappers(t)
@@ -187,19 +185,18 @@ def eigh_jvp(ctx):
         return (strip_wrappers(mm[0]), strip_wrappers(mm[1])) if mm is not None else None
 
     ok_t = False
-    if r2.op == "tuple" and len(r2.args) == 2 and len(hp) == 3:
-        dw, dv = strip_wrappers(r2.args[0]), strip_wrappers(r2.args[1])
-        a = m_arrcall(dw, "diag", "diagonal")
-        M = strip_wrappers(a[0]) if a is not None else None
-        dd = dot_parts(dv)
-        if M is not None and dd is not None:
-            mul = m_arrcall(dd[1], "multiply") if dd[1].op == "call" else None
-            if mul is None and m_binop(dd[1], "*") is not None:
-                mul = list(m_binop(dd[1], "*"))
-            ok_t = dd[0] is hp[0] and mul is not None and {strip_wrappers(mul[0]).uid, strip_wrappers(mul[1]).uid} == {
-                hp[1].uid, M.uid}
-    ctx.ob("PAIR-4", "linalg_utils._eigh_jvp_jitted_nob: dw = diag(M), dv = v (F * M) with one M = v^H dA v", ok_t,
-           "", h)
+    dw, dv = strip_wrappers(tang.args[0]), strip_wrappers(tang.args[1])
+    a = m_arrcall(dw, "diag", "diagonal")
+    M = strip_wrappers(a[0]) if a is not None else None
+    dd = dot_parts(dv)
+    if M is not None and dd is not None:
+        mul = m_arrcall(dd[1], "multiply") if dd[1].op == "call" else None
+        if mul is None and m_binop(dd[1], "*") is not None:
+            mul = list(m_binop(dd[1], "*"))
+        ok_t = strip_wrappers(dd[0]) is strip_wrappers(vterm) and mul is not None and \
+            {strip_wrappers(mul[0]).uid, strip_wrappers(mul[1]).uid} == {strip_wrappers(Fterm).uid, M.uid}
+    ctx.ob("PAIR-4", "linalg_utils._eigh_jvp (tangent): dw = diag(M), dv = v (F * M) with one M = v^H dA v", ok_t,
+           "", where_fi)
 
 
 def call_like_eigh(ev, fi):
